@@ -15,6 +15,7 @@ pipeline processes a notification) and checks the property text directly:
   zip_with_iterable (= zip_with_list)   the iterable's __next__
   average, sum               key_mapper
   min, max                   comparer
+  min_by, max_by             key_mapper / comparer
   contains, sequence_equal   comparer
   flat_map(defer | using | generate | from_iterable | if_then | case | for_in |
            from_callable | create | publish/replay/publish_value(mapper) |
@@ -480,6 +481,10 @@ def _catalogue():
                     build=_single(lambda w, i, p: _ops().min(i.wrap("comparer", _cmp_sub))))
     C["max"] = dict(cbs=["comparer"], kind="plain",
                     build=_single(lambda w, i, p: _ops().max(i.wrap("comparer", _cmp_sub))))
+    for nm in ("min_by", "max_by"):     # extrema_by called directly: key mapper and (sign-flipped for min) comparer
+        C[nm] = dict(cbs=["key_mapper", "comparer"], kind="plain",
+                     build=_single(lambda w, i, p, nm=nm: getattr(_ops(), nm)(
+                         i.wrap("key_mapper", lambda x: x % 3), i.wrap("comparer", _cmp_sub))))
     C["contains"] = dict(cbs=["comparer"], kind="plain",
                          build=_single(lambda w, i, p: _ops().contains(99, i.wrap("comparer", _cmp_eq))))
     C["sequence_equal"] = dict(cbs=["comparer"], kind="two",
